@@ -387,6 +387,9 @@ func (u *Unit) readGlobal(st *State, o *types.Var) Val {
 	if tbl, ok := u.eng.constTable(u, o); ok {
 		return tbl
 	}
+	if u.eng.immutable[o.Pkg().Path()+"."+o.Name()] {
+		return Val{T: u.d.constant("GI_"+mangle(o.Pkg().Name())+"_"+mangle(o.Name()), so), Ty: o.Type(), So: so}
+	}
 	return Val{T: u.heapGet(st, key, so), Ty: o.Type(), So: so}
 }
 
